@@ -79,8 +79,12 @@ func typeStr(e goast.Expr) string {
 
 func fromGo(e goast.Expr, elided string) (*G, error) {
 	switch x := e.(type) {
-	case *goast.UnaryExpr: // &T{...}
-		return fromGo(x.X, elided)
+	case *goast.UnaryExpr: // &T{...} or -1
+		g, err := fromGo(x.X, elided)
+		if err == nil && x.Op.String() == "-" && g.Type == "int" {
+			g = &G{Type: "int", Atom: "-" + g.Atom}
+		}
+		return g, err
 	case *goast.CompositeLit:
 		g := &G{}
 		if x.Type == nil {
